@@ -122,6 +122,8 @@ def driver_factory(cfg):
             done.append(i)
 
         threads = [vrt.Thread(target=caller, args=(i,), name=f"caller-{i}") for i in range(ncallers)]
+        if cfg.get("send_faults"):
+            ep.conn.send_fault_menu = True
 
         def peer():
             deferred = []
@@ -180,6 +182,8 @@ def driver_factory(cfg):
         pt.join()
         s.settle()
         ep.pump()
+        ep.conn.send_fault_menu = False
+        obs["failed_sends"] = len(ep.conn.failed_sends)
         # every transaction of this side is over (answered, or timed out): the peer's own transaction counter is independent, so it may
         # use the same system bytes for primaries of its own - "every other inbound data message is handed to the application"
         obs["reuse"] = [r["system"] for r in obs["wire_requests"]]
@@ -322,6 +326,8 @@ def oracle(obs, cfg, sched):
             out.append((f"C06|caller-did-not-return|outcome={sched.outcome}", {"caller": i}))
             continue
         mine = by_ident.get(100 + i, [])
+        if not mine and obs.get("failed_sends") and c.get("result") is None:
+            continue  # its request was the write the environment failed: failure reported, nothing on the wire
         if len(mine) != 1:
             out.append((f"C06|request-frames-for-caller={len(mine)}", {"caller": i, "requests": reqs}))
             continue
@@ -394,6 +400,7 @@ CONFIGS_QUICK = [
     # SECS-I: reply orders only.  Schedules with delays make both ends transmit at once (line contention), which the
     # statement of the line protocol (C17) excludes and which the library does not survive (see DESIGN.md 7.3).
     ({"callers": 2, "unsolicited": 2, "counter": 9, "transport": "secsi"}, {"sched": 0, "env": 2}),
+    ({"callers": 3, "unsolicited": 1, "counter": 3, "send_faults": True}, {"sched": 1, "env": 1}),
 ]
 CONFIGS_THOROUGH = [
     ({"callers": 2, "unsolicited": 2, "counter": 0}, {"sched": 3, "env": 2}),
@@ -401,6 +408,7 @@ CONFIGS_THOROUGH = [
     ({"callers": 2, "unsolicited": 3, "counter": 5, "reconnect": True}, {"sched": 2, "env": 1}),
     ({"callers": 3, "unsolicited": 2, "counter": 9, "transport": "secsi"}, {"sched": 0, "env": 3}),
     ({"callers": 2, "unsolicited": 3, "counter": 5, "reconnect": "busy"}, {"sched": 2, "env": 1}),
+    ({"callers": 3, "unsolicited": 1, "counter": 3, "send_faults": True}, {"sched": 2, "env": 2}),
 ]
 
 
